@@ -130,10 +130,15 @@ class Sym:
       raise RuntimeError('symbolic branch outside an FX driver')
     return _DRIVER.decide(c)
 
+  __array_ufunc__ = None      # numpy defers binary operators to the methods below
+
   def _bin(op, swap=False):
     def f(self, o):
       if isinstance(o, np.ndarray):
-        return NotImplemented
+        out = np.empty(o.shape, dtype=object)
+        for idx in np.ndindex(*o.shape):
+          out[idx] = f(self, o[idx])
+        return out
       a, b = _coerce(self, o)
       if swap:
         a, b = b, a
@@ -154,13 +159,19 @@ class Sym:
 
   def __eq__(self, o):
     if isinstance(o, np.ndarray):
-      return NotImplemented
+      out = np.empty(o.shape, dtype=object)
+      for idx in np.ndindex(*o.shape):
+        out[idx] = self.__eq__(o[idx])
+      return out
     a, b = _coerce(self, o)
     return Sym(a == b)
 
   def __ne__(self, o):
     if isinstance(o, np.ndarray):
-      return NotImplemented
+      out = np.empty(o.shape, dtype=object)
+      for idx in np.ndindex(*o.shape):
+        out[idx] = self.__ne__(o[idx])
+      return out
     a, b = _coerce(self, o)
     return Sym(a != b)
 
